@@ -64,7 +64,7 @@ type gctx struct {
 	depth  int
 	feat   map[string]bool // features used (tags)
 	budget int
-	bias   byte // 'F' functions, 'T' iterators, 0 none
+	bias   byte // 'F' functions, 'T' iterators, 'E' side effects incl. stdin reads, 0 none
 }
 
 func (g *gctx) use(f string) { g.feat[f] = true }
@@ -208,6 +208,10 @@ func (g *gctx) genB(d int) *gnode {
 
 func (g *gctx) genS(d int) *gnode {
 	g.budget--
+	if g.bias == 'E' && g.r.Intn(4) == 0 {
+		g.use("stdin")
+		return gn("<>.S")
+	}
 	if d <= 0 || g.budget < 0 {
 		return gn(fmt.Sprintf("\"s%d\"", g.r.Intn(5)))
 	}
@@ -373,6 +377,19 @@ func (g *gctx) genStmt(d int, indent string) *gnode {
 	}
 	if g.bias == 'T' && g.r.Intn(2) == 0 {
 		return g.genIterStmt(d, indent)
+	}
+	if g.bias == 'E' && g.r.Intn(6) == 0 {
+		g.use("stdin")
+		switch g.r.Intn(4) {
+		case 0:
+			return gn(indent, "<>.p\n")
+		case 1:
+			return gn(indent, "\"r#{<>}-#{", pos("embedded-part", g.flatI(1)), "}-#{<>}\".p\n")
+		case 2:
+			return gn(indent, "[", pos("element", g.genS(1)), ", <>.S, ", pos("element", g.genS(1)), "].p\n")
+		default:
+			return gn(indent, "({|x, y| x + y}(", pos("argument", g.genS(1)), ", <>.S)).p\n")
+		}
 	}
 	if g.r.Intn(16) == 0 {
 		// a call with many arguments: two-digit argument variables, \0 and surplus arguments
